@@ -472,6 +472,8 @@ def lazy_partial_oracle(run):
             raise
         except Exception as e:  # noqa: BLE001
             run.count("lazy.error", type(e).__name__)
+            run.oracle_fail("partial_tolerant", [str(members), stack_dim], f"a partial_tolerant sequence raised {type(e).__name__} on a lazy stack: {str(e)[:100]}",
+                            f"partial_tolerant:raised:{type(e).__name__}")
             continue
         bad = []
         for mem, td in zip(members, out.tensordicts):
